@@ -204,3 +204,79 @@ def object_history(ctx, a, dt):
             else:
                 ctx.oracle('pga == max|record| after any history', fr(asig.pga) == fr(np.max(np.abs(cur))), inputs)
     ctx.hist('object-history')
+
+
+# ---- extras (round-3 lessons): aliases, series handed out earlier, joint extreme scaling -------------------------------------------------
+
+def extras(ctx):
+    import eqsig
+    from eqsig import displacements as sd, im
+    rng = ctx.rng
+    for it in range(20 if ctx.tier == 'quick' else 200):
+        n = gen.log_int(rng, 2, 200)
+        dt = gen.any_dt(rng)
+        kind, a = gen.any_record(rng, n, dt)
+        inputs = {'a': a, 'dt': dt}
+        ctx.count_case(('extras', a.tobytes(), dt), gen.nontrivial_record(a))
+        # (a) documented aliases are the same functions
+        for trap in (True, False):
+            r0 = call_impl(sd.calc_velo_and_disp_from_accel_arr, a, dt, trap=trap)
+            r1 = call_impl(sd.velocity_and_displacement_from_acceleration, a, dt, trap=trap)
+            ctx.oracle('C08 alias velocity_and_displacement_from_acceleration == calc_velo_and_disp_from_accel_arr (==)',
+                       r0[0] == r1[0] and (r0[0] != 'ok' or all(np.array_equal(x, y) for x, y in zip(r0[1], r1[1]))), {**inputs, 'trap': trap})
+        r0, r1 = call_impl(im.calc_peak, a), call_impl(im.calculate_peak, a)
+        ctx.oracle('C08 alias calculate_peak == calc_peak (==)', r0 == r1 or (r0[0] == r1[0] == 'ok' and fr(r0[1]) == fr(r1[1])), inputs, detail=(r0, r1))
+        # (b) linearity observed on ONE object: the series read before the record is replaced stay what they were
+        asig = eqsig.AccSignal(a, dt)
+        trap0 = rng.random() < 0.7
+        if not trap0:
+            asig.generate_displacement_and_velocity_series(trap=False)
+        v1, d1 = asig.velocity, asig.displacement
+        v1c, d1c = np.array(v1, copy=True), np.array(d1, copy=True)
+        op = rng.choice(['reset-same-length', 'reset-same-length', 'switch-rule', 'add_constant', 'reset-other-length'])
+        alpha = rng.choice([2.0, -4.0, 0.5])
+        if op == 'reset-same-length':
+            asig.reset_values(alpha * a)
+        elif op == 'switch-rule':
+            asig.generate_displacement_and_velocity_series(trap=not trap0)
+        elif op == 'add_constant':
+            asig.add_constant(1.0)
+        else:
+            asig.reset_values(np.concatenate([a, [0.5]]))
+        v2, d2 = asig.velocity, asig.displacement
+        ctx.hist('series-handed-out/' + op)
+        ctx.oracle('C08 object-level access: velocity / displacement series read earlier are not overwritten when the object recomputes them '
+                   '(linearity v(alpha a) == alpha v(a) is observable on one object)', bool(np.array_equal(v1, v1c) and np.array_equal(d1, d1c)),
+                   {**inputs, 'first_rule_trap': trap0, 'then': op, 'alpha': alpha},
+                   detail={'velocity_changed': not np.array_equal(v1, v1c), 'displacement_changed': not np.array_equal(d1, d1c),
+                           'same_object': v1 is v2})
+        if op == 'reset-same-length':
+            want = sd.calc_velo_and_disp_from_accel_arr(alpha * a, dt, trap=True)
+            ctx.oracle('C08 object-level velocity/displacement after replacing the record == array-level result for the new record',
+                       bool(np.array_equal(v2, want[0]) and np.array_equal(d2, want[1])), {**inputs, 'alpha': alpha})
+        # (c) joint rescaling of record and time step by powers of two is exact: v ~ a dt, d ~ a dt^2
+        if np.any(a):
+            for trap in (True, False):
+                base = sd.calc_velo_and_disp_from_accel_arr(a, dt, trap=trap)
+                for p, j in ((700, -520), (-700, 520), (600, 0), (-600, 0), (0, 300), (0, -300)):
+                    ctx.hist(f'extreme/record 2^{p}, dt 2^{j}')
+                    r = call_impl(sd.calc_velo_and_disp_from_accel_arr, a * 2.0 ** p, dt * 2.0 ** j, trap=trap)
+                    ok = r[0] == 'ok' and gen.scaled_exactly(r[1][0], base[0], 2.0 ** (p + j)) and gen.scaled_exactly(r[1][1], base[1], 2.0 ** (p + 2 * j))
+                    ctx.oracle('C08 v(2^p a, 2^j dt) == 2^(p+j) v(a, dt) and d(2^p a, 2^j dt) == 2^(p+2j) d(a, dt) exactly, also for extreme p, j', ok,
+                               {**inputs, 'trap': trap, 'record_scale': f'2**{p}', 'dt_scale': f'2**{j}'})
+                    if j == 0 and trap:
+                        o = ctx.aged(eqsig.AccSignal, a * 2.0 ** p, dt)
+                        pk = call_impl(lambda: (o.pga, o.pgv, o.pgd))
+                        b = (np.max(np.abs(a)), np.max(np.abs(base[0])), np.max(np.abs(base[1])))
+                        ctx.oracle('C08 pga/pgv/pgd scale exactly with 2^p, also at extreme scales',
+                                   pk[0] == 'ok' and all(float(x) == float(y) * 2.0 ** p for x, y in zip(pk[1], b)), {**inputs, 'record_scale': f'2**{p}'},
+                                   detail={'got': pk[1], 'base': b})
+
+
+_run_main = run
+
+
+def run(ctx):
+    _run_main(ctx)
+    extras(ctx)
+    ctx.flush()
